@@ -116,6 +116,11 @@ func (w *HttpWorker) Process(data []byte, body []byte) (bool, error) {
 		return false, err
 	}
 
+	if httpData == nil {
+		// the stored address is the json value null
+		return false, fmt.Errorf("invalid http address %s", data)
+	}
+
 	req, err := http.NewRequest("POST", httpData.Url, bytes.NewReader(body))
 	if err != nil {
 		return false, err
